@@ -316,11 +316,35 @@ def gen_programs(rng, n, opts=None):
 
 # ------------------------------------------------------------------ classification
 
-def classify(plan, setname, a, b, has_wg=False, all_parsed=True):
+ILLFORMED_DC = "ill-formed: DefaultConstructible() as an operand"
+
+
+def illformed_dc(text):
+    """`DefaultConstructible()` has only a conversion-function TEMPLATE (operator T() &&): C++ can use it where a target
+    type exists (second/third operand of ?: whose other operand is typed, initialiser, argument) but not as the operand
+    of a postfix, unary or binary operator (`DefaultConstructible().x`, `DefaultConstructible() < 6.5`: no T can be
+    deduced; the text does not compile).  Returns the offending snippets (token context)."""
+    try:
+        toks = mslread.tokenize(text)
+    except mslread.OutOfFragment:
+        return []
+    out = []
+    for i, (k, v) in enumerate(toks):
+        if k == "id" and v == "DefaultConstructible" and i + 3 < len(toks) and toks[i + 1][1] == "(" and toks[i + 2][1] == ")":
+            if toks[i - 1][1] == "struct":
+                continue
+            if toks[i + 3][1] not in (";", ")", ",", ":", "}"):
+                out.append(" ".join(t[1] for t in toks[max(0, i - 8):i + 6]))
+    return out
+
+
+def classify(plan, setname, a, b, has_wg=False, all_parsed=True, illformed=None):
     """(class, detail) of one pair of results; class is one of
        agree | differ | msl-fail:<kind> | oof:<why> | undefined | intentional"""
     if not a.get("ok"):
         return "undefined", "%s %s" % (a.get("kind"), str(a.get("msg"))[:80])
+    if illformed:
+        return "msl-fail:" + ILLFORMED_DC, "the emitted text does not compile: ... %s ..." % illformed[0]
     if setname == "v31_nozero" and has_wg:
         return "intentional", "workgroup memory deliberately not zero-initialised"
     if not b.get("ok"):
@@ -384,7 +408,7 @@ class Single:
         except Exception as e:
             b = {"ok": False, "kind": "crash", "msg": str(e)[-200:]}
         has_wg = any(sp == "SpaceWorkGroup" and h in plan.used for h, sp, b_, ty in plan.globals)
-        c, d = classify(plan, setname, a, b, has_wg, not ast["unparsed"])
+        c, d = classify(plan, setname, a, b, has_wg, not ast["unparsed"], illformed_dc(m["text"]))
         self.last = {"src": src, "msl": m["text"], "detail": d, "input": inp}
         return c, d
 
